@@ -378,6 +378,33 @@ func genCase(t *rapid.T) (Case, map[string]bool) {
 				gl.A = uint8(rapid.IntRange(1, 0x7f).Draw(t, "gradlike.a"))
 				c.Ops = append(c.Ops, ops.OpSetCReg(adj, false, ops.RGBAv(gl)))
 				gs.l("gradient-looking-colour-with-alpha")
+			} else if other, ok := freeRegister(g); ok {
+				switch rapid.IntRange(0, 5).Draw(t, "gradvariant") {
+				case 0:
+					// another register receives the gradient value through a blend that copies it
+					// (weight 255 or 0, the partner transparent): the path is filled from that register
+					bl := ops.ColorV{T: 3, R: 255, G: 0x7f, B: 0xc0 | g.Reg}
+					if rapid.Bool().Draw(t, "copy.t0") {
+						bl = ops.ColorV{T: 3, R: 0, G: 0xc0 | g.Reg, B: 0x7f}
+					}
+					c.Ops = append(c.Ops, ops.OpSetCSel((other+adj)&63), ops.OpSetCReg(adj, false, bl))
+					cSel = (other + adj) & 63
+					gs.l("gradient-value-copied-through-a-blend")
+				case 1:
+					// a sibling value (same stops and bases, other shape or spread) in a second register;
+					// two paths in a row, one from each, with nothing but a selector write in between
+					sib := g.Bits
+					if rapid.Bool().Draw(t, "sib.shape") {
+						sib.Radial = !sib.Radial
+					} else {
+						sib.Spread = (sib.Spread + uint8(rapid.IntRange(1, 3).Draw(t, "sib.spread"))) & 3
+					}
+					c.Ops = append(c.Ops, ops.OpSetCSel(other), ops.OpSetCReg(0, false, ops.RGBAv(spec.EncodeGradientBits(sib))), ops.OpSetCSel((g.Reg+adj)&63),
+						ops.OpStartPath(adj, gen.Grid(t, "sx", 30), gen.Grid(t, "sy", 30)), ops.OpDraw(ops.AbsLineTo, 5, 7), ops.OpDraw(ops.AbsLineTo, -3, 9), ops.OpDraw(ops.ClosePathEndPath),
+						ops.OpSetCSel((other+adj)&63))
+					cSel = (other + adj) & 63
+					gs.l("two-paths-in-a-row-from-sibling-gradient-values")
+				}
 			}
 		}
 		if adj > cSel {
@@ -392,6 +419,17 @@ func genCase(t *rapid.T) (Case, map[string]bool) {
 		c.Ops = append(c.Ops, ops.OpDraw(ops.ClosePathEndPath))
 	}
 	return c, gs.labels
+}
+
+// freeRegister: a colour register that is neither the gradient value's nor one of its stops'.
+func freeRegister(g gen.GradSetup) (uint8, bool) {
+	for k := uint8(1); k < 64; k++ {
+		r := (g.Reg + k*13) & 63
+		if r != g.Reg && (r-g.Bits.CBase)&63 >= g.Bits.NStops {
+			return r, true
+		}
+	}
+	return 0, false
 }
 
 func TestPaint(t *testing.T) {
